@@ -585,6 +585,48 @@ func vScenarioC06(rc *runCtx) {
 		}
 		return
 	}
+	// the record of a transfer that was completed, exactly as the real server printed it (trigger ... "Saved N
+	// files"), scrolls by again in one read: it starts nothing - whatever the number of files, for which the
+	// message takes different forms
+	if tp.Bool("c06.realdone", 250) {
+		src := filepath.Join(rc.dir, "src-done")
+		os.MkdirAll(src, 0755)
+		nf := []int{1, 2, 5, 20, 21, 24, 40}[tp.Draw("c06.realdone.n", 7)]
+		args := []string{"tsz", "-q"}
+		for i := 0; i < nf; i++ {
+			p := filepath.Join(src, fmt.Sprintf("IMG_%04d.JPG", 2000+i))
+			vWriteFile(p, []byte(fmt.Sprintf("picture %d", i)))
+			args = append(args, p)
+		}
+		sp := w.NewProc("realserver")
+		sp.Args = args
+		sp.Stdin = &verifsim.SimFile{R: up}
+		sp.Stdout = &verifsim.SimFile{W: down}
+		sp.Stderr = &verifsim.SimFile{W: down}
+		realServer = true
+		fromDown := down.NSentInt()
+		sp.Start("realserver.main", func() int { return TszMain() })
+		w.Run(func() bool { return sp.Exited && !filter.IsTransferringFiles() || w.Now() > 2*time.Minute })
+		x.settle(time.Second)
+		realServer = false
+		d, _, _ := down.Snapshot()
+		rec := d[fromDown:]
+		if i := bytes.Index(rec, []byte("::TRZSZ:TRANSFER:")); i >= 0 && sp.Exited && sp.ExitCode == 0 && !filter.IsTransferringFiles() {
+			rec = append([]byte{}, rec[i:]...)
+			rc.fault("record-of-completed-transfer-replayed")
+			from := up.NSentInt()
+			prevAtomic := down.Atomic
+			down.Atomic = func(d []byte) bool { return true }
+			down.Write(rec)
+			down.Atomic = prevAtomic
+			idle()
+			if acts, fails, stream := count(from); acts+fails > 0 {
+				rc.violate("scroll-back", "C06:completed-record-restarts", "the record of a completed download of %d files, as the real server printed it (%s ... %s), started a transfer when it scrolled by again in one read: the client wrote %s",
+					nf, vQuote(rec, 60), vQuote(rec[vMax(0, len(rec)-80):], 80), vQuote(stream, 80))
+				return
+			}
+		}
+	}
 	// the record of a transfer that the user cancelled in the file dialog, exactly as the real server printed it,
 	// scrolls by again in one read: it starts nothing (the words the client looks for are the servers' words)
 	if tp.Bool("c06.realcancel", 250) {
@@ -714,6 +756,14 @@ func vScenarioC06(rc *runCtx) {
 			items = append(items, "tmux-control:"+tr.mode+":"+vIDClass(tr.id)+":"+fmt.Sprint(tr.port != ""))
 		default: // scroll-back of a finished transfer
 			tail := []string{"Saved 1 file/directory to /tmp\r\n- a.txt\r\n", "Cancelled\r\n", "Stopped\r\n", "Interrupted\r\n", "#CFG:eJwEwEsKAjEM\n"}[tp.Draw("c06.tail", 5)]
+			if strings.HasPrefix(tail, "Saved") && tp.Bool("c06.tailreal", 700) {
+				// what the program itself prints after a transfer of that many files (the message takes several forms)
+				var names []string
+				for k, nn := 0, []int{1, 2, 5, 20, 21, 24, 60}[tp.Draw("c06.tailn", 7)]; k < nn; k++ {
+					names = append(names, fmt.Sprintf("IMG_%04d.JPG", 2000+k))
+				}
+				tail = formatSavedFiles(names, []string{"/tmp", "", "/home/user/Downloads"}[tp.Draw("c06.taildst", 3)]) + "\r\n"
+			}
 			tr0 := vGenTrigger(tp, 500+i)
 			chunk = append(append([]byte{}, tr0.text...), []byte("\x1b8\x1b[0J"+tail)...)
 			if len(chunk)-bytes.Index(chunk, []byte("::TRZSZ")) <= 40+len(tail) {
